@@ -131,10 +131,9 @@ class AFMWriter(ModelToText):
         if node.left and node.right:
             result = self.recursive_constraint_read(
                 node.left) + data + self.recursive_constraint_read(node.right)
-        elif not node.left and node.right:
-            result = data + self.recursive_constraint_read(node.right)
-        elif node.left and not node.right:
-            result = self.recursive_constraint_read(node.left) + node.data
+        elif node.left or node.right:  # unary operator (NOT): the operand follows the operator
+            operand = node.left if node.left else node.right
+            result = data + self.recursive_constraint_read(operand)
         else:
             result = " " + data + " "
 
